@@ -20,7 +20,7 @@ def sh(cmd, cwd=None, timeout=1800, env=None):
 def build_demo(demo, root, out, san):
     import glob
     srcs = " ".join(sum([glob.glob(os.path.join(root, g)) for g in SRC.split()], []))
-    flags = "-fsanitize=address,undefined -fno-sanitize-recover=undefined" if san else ""
+    flags = ("-fsanitize=address,undefined -fno-sanitize-recover=undefined" if san else "") + " " + os.environ.get("DEMO_CFLAGS", "")
     return sh("gcc -std=gnu99 -g -w %s -I%s/include/qlibc -I%s/src/internal %s %s -lpthread -lm -o %s" % (flags, root, root, demo, srcs, out))
 
 def main():
